@@ -99,13 +99,27 @@ def build(tree, provider=None, order=None, into=None):
     for p in tree["p"]:   # latest earlier call of the same name as one more element of a list value: add(name, [v1, v2])
         name, spec = p[0], p[1]
         params = p[2] if len(p) > 2 and p[2] else None
+        if len(p) > 3 and p[3] and p[3].get("typed") and spec["k"] in ("text", "uri", "caladdr", "int"):
+            calls.append([name, [spec], params, p[3]["typed"]])
+            continue
         if len(p) > 3 and p[3] and p[3].get("join") and not params:
-            prev = next((cl for cl in reversed(calls) if cl[0].upper() == name.upper() and cl[2] is None), None)
+            prev = next((cl for cl in reversed(calls) if cl[0].upper() == name.upper() and cl[2] is None and len(cl) == 3), None)
             if prev is not None:
                 prev[1].append(spec)
                 continue
         calls.append([name, [spec], params])
-    for name, specs, params in calls:
+    for name, specs, params, *typed in calls:
+        if typed:
+            # the value is handed over as a value object of the library (add() documents that it keeps those) - of the class the
+            # property takes, or of an application's subclass of it (class Attendee(vCalAddress)) - carrying its own parameters
+            from icalendar.parser import Parameters
+            from icalendar.cal import types_factory
+            cls = types_factory.for_property(name)
+            K = cls if typed[0] == "exact" else type("My" + cls.__name__, (cls,), {})
+            obj = K(dec_value(specs[0], provider))
+            obj.params = Parameters(dict(params) if params else {})
+            c.add(name, obj)
+            continue
         if len(specs) > 1:
             arg = [dec_value(sp, provider) for sp in specs]
             before = _copy.deepcopy(arg)
